@@ -189,7 +189,8 @@ class Gen:
             return [A('DD'), f, *[[k, sub()] for k in ks]]
         if kind == 'Q':
             n = nkids()
-            maxlen = rng.choice([A('N'), A('N'), n, n + 1, n + 3])
+            # maxlen values above 256 are fresh int objects on every `deque.maxlen` access (identity vs value)
+            maxlen = rng.choice([A('N'), A('N'), n, n + 1, n + 3, 300 + n, 10**9 + n])
             return [A('Q'), maxlen, *[sub() for _ in range(n)]]
         if kind == 'NT':
             c = rng.randrange(len(NT_ARITY))
